@@ -150,6 +150,11 @@ def oracle_all(c, d, kind, im):
             if bad in t:
                 return ('argument of the construct that is not typeset appears in the '
                         'output (%r): %r' % (bad, t))
+        if 'LT-SKIP-BEGIN' in c.latex:
+            for h in ('secret', 'hidden', 'gone', 'foo'):
+                if h in t:
+                    return ('text of a skipped region (%r) appears in the output: %r'
+                            % (h, t))
         if c.latex in FORBID and not ('xa' in t and 'ya' in t):
             return 'text of the table cells lost: %r' % t
         if 'first' in c.latex and not ('first' in t and 'second' in t
